@@ -479,6 +479,7 @@ inductive IpErr
   | parse                                 -- "unable to parse IP address: {err}"
   | mode                                  -- "Invalid mode '{other}'. Must be 'aes128' or 'pfx'"
   | key (m : Mode) (isV4 : Bool)          -- "{mode} mode requires a {N}-byte key for {IPv4|IPv6}"
+  | pfxHalves                             -- "pfx mode requires a key whose two 16-byte halves differ"
   deriving DecidableEq, Repr
 
 structure IpPrims where
@@ -522,7 +523,7 @@ def encryptIp (P : IpPrims) (ipText key mode : Bytes) : Res IpErr :=
       else .ok (P.showIp (ipcryptEnc P key ip))
     | some .pfx =>
       if key.length ≠ 32 then .err (.key .pfx ip.isV4)
-      else if pfxKeyPanics key then .panic
+      else if pfxKeyPanics key then .err .pfxHalves
       else .ok (P.showIp (pfxIpEnc P key ip))
 
 /-- `fn decrypt_ip(ip, key, mode)`: as in the source, each mode matches again on the address family
@@ -545,11 +546,11 @@ def decryptIp (P : IpPrims) (ipText key mode : Bytes) : Res IpErr :=
       match ip with
       | .v4 o =>
         if key.length ≠ 32 then .err (.key .pfx true)
-        else if pfxKeyPanics key then .panic
+        else if pfxKeyPanics key then .err .pfxHalves
         else .ok (P.showIp (pfxIpDec P key (.v4 o)))
       | .v6 o =>
         if key.length ≠ 32 then .err (.key .pfx false)
-        else if pfxKeyPanics key then .panic
+        else if pfxKeyPanics key then .err .pfxHalves
         else .ok (P.showIp (pfxIpDec P key (.v6 o)))
 
 /-! ## Executable instances used by the line-protocol driver (and as non-vacuity witnesses) -/
